@@ -833,6 +833,8 @@ class ArrayOf(DataType):
         self.check_type(value)
         try:
             if previous:
+                # elements beyond the length of the previous value have no previous value
+                previous = list(previous) + [None] * (len(value) - len(previous))
                 return tuple(self.members.validate(v, p) for v, p in zip(value, previous))
             return tuple(self.members.validate(v) for v in value)
         except Exception as e:
